@@ -65,7 +65,7 @@ class Contract:
     def __init__(self, qualname, props, args=None, requires=None, ensures=None, raises=None,
                  on_raise=None, ghost=None, ghost_update=None, modifies=None, setup=None,
                  result=None, self_desc=None, let=None, any_raise_ok=False, modular_post=None,
-                 note='', unchanged=None, pre_hook=None, canary=None, decreases=None, loops=None, assume_only=None):
+                 note='', unchanged=None, pre_hook=None, canary=None, decreases=None, loops=None, assume_only=None, lazy=False):
         self.qualname = qualname
         self.props = list(props)
         self.args = args or {}                # name -> sort descriptor
@@ -93,6 +93,7 @@ class Contract:
         self.pre_hook = pre_hook
         self.canary = canary                  # a deliberately false ensures expr that MUST be refuted
         self.modular_post = modular_post
+        self.lazy = lazy                      # a generator function: calling it consumes nothing and cannot raise
         self.assume_only = assume_only        # labels of the ensures clauses a MODULAR caller may assume (None: all)
         self.decreases = decreases            # int-valued measure expr for self-recursive calls (must stay >= 0, strictly decrease)
         # loops: {source text of the for-loop's iterable: dict(invariant=[clauses], modifies=[havoc targets | callables],
@@ -100,7 +101,7 @@ class Contract:
         self.loops = {}
         for key, spec_ in (loops or {}).items():
             self.loops[key] = dict(invariant=_clauses(spec_.get('invariant'), 'inv'), modifies=spec_.get('modifies', []),
-                                   locals=spec_.get('locals', {}))
+                                   locals=spec_.get('locals', {}), iteration=_clauses(spec_.get('iteration'), 'iter'))
         REGISTRY[qualname] = self
 
 
